@@ -23,7 +23,7 @@ OutFile == IOEnv.FN_OUT
 ObsFile == IOEnv.FN_OBS
 
 \* ---- TE header domain
-QsQuick == {"absent", "0.5", "0"}
+QsQuick == {"absent", "0.5", "0", "bad"}
 Entries(qs) == [c : TC!Codings, q : qs]
 TEs(qs3, qs2) ==
     {<<>>} \cup {<<e>> : e \in Entries(TC!Qs)}
@@ -85,6 +85,12 @@ GenC19(f) == ndJsonSerialize(f, SetToSeq({c \in C19Cases : C19Pick(c)}))
 C02Lines == IF Tier = "quick" THEN HS!ValidLines(2, 3) ELSE HS!ValidLines(2, 4)
 GenC02(f) == ndJsonSerialize(f, SetToSeq({[line |-> l, name |-> HS!FieldName(l), value |-> HS!FieldValue(l)] : l \in C02Lines}))
 \* sanity of the reference operators themselves
+\* ---- C16: every arrangement of up to three framing headers, with its reference class and framing
+C16Heads == HS!FramingHeads(3)
+GenC16(f) == ndJsonSerialize(f, SetToSeq({[hs |-> h, cls |-> HS!FramingClass(h), by |-> HS!FramedBy(h)] : h \in C16Heads}))
+\* (sanity of the reference: a head without Content-Length is never refused for its framing headers; one bad value is enough)
+C16Sane == /\ \A h \in C16Heads : (\A i \in 1..Len(h) : h[i] \in {"te", "other", "cl:valid"}) <=> HS!FramingClass(h) = "ok"
+           /\ \A h \in C16Heads : HS!FramedBy(h) = "chunked" <=> \E i \in 1..Len(h) : h[i] = "te"
 C02Sane == \A l \in HS!ValidLines(2, 2) : HS!LineClass(l) = "ok" /\ HS!FieldName(l) # <<>>
                  /\ (HS!FieldValue(l) # <<>> => (Head(HS!FieldValue(l)) \notin HS!OWS /\ HS!FieldValue(l)[Len(HS!FieldValue(l))] \notin HS!OWS))
 
@@ -115,6 +121,7 @@ ASSUME
       [] Mode = "genC04" -> GenC04(OutFile) /\ PrintT(<<"GEN", Cardinality({c \in C04Cases : C04Pick(c)})>>)
       [] Mode = "genC19" -> GenC19(OutFile) /\ PrintT(<<"GEN", Cardinality({c \in C19Cases : C19Pick(c)})>>)
       [] Mode = "genC02" -> C02Sane /\ GenC02(OutFile) /\ PrintT(<<"GEN", Cardinality(C02Lines)>>)
+      [] Mode = "genC16" -> C16Sane /\ GenC16(OutFile) /\ PrintT(<<"GEN", Cardinality(C16Heads)>>)
       [] Mode = "check" -> CheckObs
 
 VARIABLE dummy
